@@ -86,6 +86,13 @@ CHECKS = {
             "successful validation of a ZipFile over the same bytes and that nothing is decompressed before a rejection.",
             "Where the statement is silent (directory entries in the entry count, compressed bytes of empty entries) neither reading is demanded; float ratios are exact for sizes < 2^44.",
             "DESIGN.md §8 C11"),
+    "C12": ("exploration",
+            "rusage monitor (process CPU time, ru_maxrss delta) in fresh worker processes over 21 amplifier families x series n,2n,4n,8n; log-log slope for size-growing families; audit-hook + RSS probes at the explicit limits",
+            "Small inputs whose declared repeat counts, dimensions, nesting depth, property counts, entity definitions or repetition grow are extracted one per fresh process; RSS delta <= 64 MiB + 40 x U and CPU <= 2 s + 2 us x U x log2 U, "
+            "and for inputs that grow with n a CPU-over-size exponent <= 1.3; read_file(max_file_size) is probed at limit-1/limit/limit+1 (and 0 = disabled, default 100 MB with a sparse file), the 7z archive limit at 100 MiB / +1, "
+            "and the per-member limit at 10 MiB / +1 for zip, tar.gz and 7z (no result, no file written, no RSS growth for the oversize member).",
+            "Budgets are an order of magnitude above what well-formed inputs need; cost is bounded-progress on CPU time, never wall-clock.",
+            "DESIGN.md §8 C12"),
     "C13": ("exploration",
             "ground-truth tables (token cells and typed values) vs iterate_tables()/get_dim() of the real extractors",
             "Generated r x c grids with empty cells, multi-paragraph cells, header rows, typed spreadsheet values; compared cell by cell (tokens / value equality), table count/order and get_dim().",
